@@ -711,20 +711,15 @@ void DOMDocumentImpl::removeRange(DOMRangeImpl* range)
 */
 bool DOMDocumentImpl::isKidOK(const DOMNode *parent, const DOMNode *child)
 {
-      static int kidOK[14];
-
-      if (kidOK[DOMNode::ATTRIBUTE_NODE] == 0)
-      {
-          kidOK[DOMNode::DOCUMENT_NODE] =
+      // constant table (indexed by the parent's node type), so that concurrent
+      // first use from several threads needs no synchronisation
+      static const int docKids =
               1 << DOMNode::ELEMENT_NODE |
               1 << DOMNode::PROCESSING_INSTRUCTION_NODE |
               1 << DOMNode::COMMENT_NODE |
               1 << DOMNode::DOCUMENT_TYPE_NODE;
 
-          kidOK[DOMNode::DOCUMENT_FRAGMENT_NODE] =
-              kidOK[DOMNode::ENTITY_NODE] =
-              kidOK[DOMNode::ENTITY_REFERENCE_NODE] =
-              kidOK[DOMNode::ELEMENT_NODE] =
+      static const int elemKids =
               1 << DOMNode::ELEMENT_NODE |
               1 << DOMNode::PROCESSING_INSTRUCTION_NODE |
               1 << DOMNode::COMMENT_NODE |
@@ -732,17 +727,28 @@ bool DOMDocumentImpl::isKidOK(const DOMNode *parent, const DOMNode *child)
               1 << DOMNode::CDATA_SECTION_NODE |
               1 << DOMNode::ENTITY_REFERENCE_NODE;
 
-          kidOK[DOMNode::ATTRIBUTE_NODE] =
+      static const int attrKids =
               1 << DOMNode::TEXT_NODE |
               1 << DOMNode::ENTITY_REFERENCE_NODE;
 
-          kidOK[DOMNode::PROCESSING_INSTRUCTION_NODE] =
-              kidOK[DOMNode::COMMENT_NODE] =
-              kidOK[DOMNode::TEXT_NODE] =
-              kidOK[DOMNode::CDATA_SECTION_NODE] =
-              kidOK[DOMNode::NOTATION_NODE] =
-              0;
-      }
+      static const int kidOK[14] =
+      {
+          0,          //  0 (unused)
+          elemKids,   //  1 ELEMENT_NODE
+          attrKids,   //  2 ATTRIBUTE_NODE
+          0,          //  3 TEXT_NODE
+          0,          //  4 CDATA_SECTION_NODE
+          elemKids,   //  5 ENTITY_REFERENCE_NODE
+          elemKids,   //  6 ENTITY_NODE
+          0,          //  7 PROCESSING_INSTRUCTION_NODE
+          0,          //  8 COMMENT_NODE
+          docKids,    //  9 DOCUMENT_NODE
+          0,          // 10 DOCUMENT_TYPE_NODE
+          elemKids,   // 11 DOCUMENT_FRAGMENT_NODE
+          0,          // 12 NOTATION_NODE
+          0           // 13 (unused)
+      };
+
       int p=parent->getNodeType();
       int ch = child->getNodeType();
       return ((kidOK[p] & 1<<ch) != 0) ||
